@@ -50,6 +50,17 @@ Proof.
   - right. cbn in Hn. apply (IH (S i) k c och Hn). now rewrite Nat.add_succ_comm.
 Qed.
 
+Lemma o_chains_list_inv pre c0 cs : forall i ch,
+  In ch (o_chains_list pre c0 i cs) ->
+  exists j c, nth_error cs j = Some c /\ In ch (o_chains (pre ++ [i + j]) c0 c).
+Proof.
+  induction cs as [|c r IHr]; intros i ch H; [destruct H|].
+  cbn [o_chains_list] in H. apply in_app_or in H as [H|H].
+  - exists 0%nat, c. rewrite Nat.add_0_r. now split.
+  - destruct (IHr (S i) ch H) as (j & c' & Hn & Hin). exists (S j), c'.
+    rewrite <- Nat.add_succ_comm. now split.
+Qed.
+
 Fixpoint all_ok (P : list (path * oscope) -> bool) (ch : list (path * oscope)) : Prop :=
   match ch with
   | [] => True
